@@ -106,8 +106,9 @@ impl core::fmt::Debug for MolErr { #[verifier::external_body] fn fmt(&self, f: &
 pub uninterp spec fn header_decodes(s: Seq<u8>) -> bool;
 impl HeaderP {
     pub const TOTAL_SIZE: usize = 208;
+    pub uninterp spec fn s_bytes(&self) -> Seq<u8>;        // the bytes it was decoded from
     #[verifier::external_body]
-    pub fn from_slice(s: &[u8]) -> (r: core::result::Result<HeaderP, MolErr>) ensures (r is Ok) == header_decodes(s@) { unimplemented!() }
+    pub fn from_slice(s: &[u8]) -> (r: core::result::Result<HeaderP, MolErr>) ensures (r is Ok) == header_decodes(s@), r is Ok ==> r->Ok_0.s_bytes() == s@ { unimplemented!() }
     #[verifier::external_body]
     pub fn into_view(self) -> (r: HeaderViewP) { unimplemented!() }
 }
